@@ -13,6 +13,7 @@ import TexelVerif.Drv.TB
 import TexelVerif.Drv.Draw
 import TexelVerif.Drv.Rev
 import TexelVerif.Drv.Text
+import TexelVerif.Drv.Proto
 /-! Line-protocol driver: one operation per stdin line, one canonical reply line.
     Imports model files only (no proofs, no Mathlib), so it links as a `lean_exe`. -/
 
@@ -23,6 +24,7 @@ structure DrvState where
   book : Drv.BookBuild.State := {}
   pos : Drv.Pos.State := {}
   text : Drv.Text.UciSt := {}
+  proto : Drv.Proto.PState := {}
 
 def dispatch (st : DrvState) (line : String) : DrvState × String :=
   let toks := (line.trimAscii.toString.splitOn " ").filter (· ≠ "")
@@ -44,6 +46,7 @@ def dispatch (st : DrvState) (line : String) : DrvState × String :=
   | "draw" :: args => (st, Drv.Draw.step args)
   | "rev" :: args => (st, Drv.Rev.step args)
   | "text" :: args => let (t, o) := Drv.Text.step st.text args; ({ st with text := t }, o)
+  | "proto" :: args => let (t, o) := Drv.Proto.step st.proto args; ({ st with proto := t }, o)
   | _ => (st, "bad-op")
 
 partial def loop (h : IO.FS.Stream) (out : IO.FS.Stream) (st : DrvState) : IO Unit := do
